@@ -309,12 +309,8 @@ fn from_str_with_options_impl<'de, T>(input: &'de str, options: Options) -> Resu
 where
     T: serde::de::Deserialize<'de>,
 {
-    // Normalize: ignore a single leading UTF-8 BOM if present.
-    let input = if let Some(rest) = input.strip_prefix('\u{FEFF}') {
-        rest
-    } else {
-        input
-    };
+    // A single leading UTF-8 BOM is ignored: the event source strips it (exactly once, for every
+    // string entry point alike) and the snippet renderer strips it from the text it is given.
 
     let with_snippet = options.with_snippet;
     let crop_radius = options.crop_radius;
@@ -415,12 +411,8 @@ fn from_str_with_options_and_path_recorder<T: DeserializeOwned>(
     input: &str,
     options: Options,
 ) -> Result<(T, crate::path_map::PathRecorder), Error> {
-    // Normalize: ignore a single leading UTF-8 BOM if present.
-    let input = if let Some(rest) = input.strip_prefix('\u{FEFF}') {
-        rest
-    } else {
-        input
-    };
+    // A single leading UTF-8 BOM is ignored: the event source strips it (exactly once, for every
+    // string entry point alike) and the snippet renderer strips it from the text it is given.
 
     let with_snippet = options.with_snippet;
     let crop_radius = options.crop_radius;
@@ -1383,12 +1375,8 @@ pub fn from_multiple_with_options<T: DeserializeOwned>(
     input: &str,
     options: Options,
 ) -> Result<Vec<T>, Error> {
-    // Normalize: ignore a single leading UTF-8 BOM if present.
-    let input = if let Some(rest) = input.strip_prefix('\u{FEFF}') {
-        rest
-    } else {
-        input
-    };
+    // A single leading UTF-8 BOM is ignored: the event source strips it (exactly once, for every
+    // string entry point alike) and the snippet renderer strips it from the text it is given.
     let with_snippet = options.with_snippet;
     let crop_radius = options.crop_radius;
 
